@@ -1,7 +1,8 @@
 import GlmVerif.Spec.C12
-import GlmVerif.Gen.C12
-/-! table check of family `cross_orth` against the model generated from /repo (kernel evaluation) -/
+import GlmVerif.Gen.C12.cross
+/-! table check of family `cross_orth` against the model of its units generated from /repo (kernel evaluation) -/
 namespace Glm.Props.C12
 open Glm Glm.Spec.C12 Glm.Gen.C12
-theorem cross_orth_ok : f_cross_orth.ok lookup = true := by decide +kernel
+set_option maxHeartbeats 4000000 in
+theorem cross_orth_ok : f_cross_orth.ok (fun _ ks => cross_L ks) = true := by decide +kernel
 end Glm.Props.C12
